@@ -2176,9 +2176,20 @@ func (area) Run(c *core.Ctx) error {
 			byLabels := i%40 == 19
 			var target int
 			if byLabels {
-				target = []int{512, 1024, 1536}[r.Intn(3)] + r.Intn(3) - 1
+				// rank blocks (512 bits) and, round 8, the 64-bit WORD boundaries of bitVector.Init /
+				// DistanceToNextSetBit / select64 (label count = bit count of hasChild / louds / hasSuffix)
+				base := []int{512, 1024, 1536, 64, 128, 192, 256, 320, 448, 576}
+				if c.Tier == "thorough" {
+					base = append(base, 2048, 2560, 4096, 8192)
+				}
+				target = base[r.Intn(len(base))] + r.Intn(3) - 1
 			} else {
-				target = []int{64, 128, 192, 512}[r.Intn(4)] + r.Intn(3) - 1
+				// select samples (one per 64 nodes), hasPrefix rank blocks (512 nodes)
+				base := []int{64, 128, 192, 512, 256, 320}
+				if c.Tier == "thorough" {
+					base = append(base, 1024, 1536, 2048)
+				}
+				target = base[r.Intn(len(base))] + r.Intn(3) - 1
 			}
 			keys, ok := genKeysTarget(r, target, byLabels)
 			kind := "nodes"
